@@ -47,8 +47,8 @@ place in the code than these:
 DELIVERABLES, written to {out}/ :
   1. patch.diff  - `cd {wt} && git diff > {out}/patch.diff` (source files only; no test files, no new files outside desolver/).
   2. demo.py     - a small stand-alone program that imports desolver from PYTHONPATH, exercises the property, prints what it observed and exits 0
-                   when the property holds and NON-ZERO when it is violated.  It must exit 0 on the unchanged tree (verify with `git stash` /
-                   `git stash pop`, or with `git diff > p; git checkout -- .; run; git apply p`) and non-zero with your change.  It must check the
+                   when the property holds and NON-ZERO when it is violated.  It must exit 0 on the unchanged tree (verify with `git diff > p; git checkout -- .; run; git apply p` --
+                   do NOT use `git stash`: the stash is shared by all worktrees of the repository and other people are using it) and non-zero with your change.  It must check the
                    property as stated (an observable behaviour through the public API), not the presence of your edit, must be deterministic, and
                    must finish in under two minutes.
   3. needs.txt   - one or two lines: what is needed for the change to manifest (the particular input, sequence of calls, fault, or pair of sites).
